@@ -363,6 +363,9 @@ pub fn roundtrip<T: Codec>(ctx: &mut Ctx, tag: &str, v: &T, class: &str, trailin
 /// consumed and re-encoding then decoding must give the same value back, consuming everything.
 pub fn decode_arbitrary<T: Codec>(ctx: &mut Ctx, tag: &str, bytes: &[u8], how: &str) {
     let op = format!("dec {tag} {}", hex(bytes));
+    // breadcrumb for failures `catch_unwind` cannot catch (allocation failure aborts the process): the runner
+    // keeps the tail of stderr of a crashed harness, and `--seed` + this line number replays the input
+    eprintln!("c02: request line {} ({how}, {} bytes as {tag})", ctx.lines + 1, bytes.len());
     match ctx.guard(|| decode_impl::<T>(bytes)) {
         Err(m) => { ctx.emit(&op, "panic"); ctx.oracle_fail(&format!("panic-decode-{tag}"), &op, &m); }
         Ok(Err(e)) => { ctx.count(&format!("{tag}.err.{}", err_name(&e))); ctx.count(&format!("mut.{how}.err")); ctx.emit(&op, &format!("err {}", err_name(&e))); }
